@@ -59,7 +59,7 @@ _ANONYMOUS_BITS_ALIAS_EXISTENCE_SKELETON = expression_parser.parse(
 )
 
 
-def _add_anonymous_aliases(structure, type_definition):
+def _add_anonymous_aliases(structure, type_definition, enclosing_types):
     """Adds synthetic alias fields for all fields in anonymous fields.
 
     This essentially completes the rewrite of this:
@@ -86,17 +86,24 @@ def _add_anonymous_aliases(structure, type_definition):
     Arguments:
         structure: The ir_data.Structure on which to synthesize fields.
         type_definition: The ir_data.TypeDefinition containing structure.
+        enclosing_types: The ir_data.TypeDefinitions that contain type_definition,
+            from the outermost to the innermost.
 
     Returns:
         None
     """
+    # The types of inline fields are hoisted out of inline types, so the type of
+    # an anonymous field in an inline `struct` is a subtype of an enclosing type.
+    candidate_types = list(type_definition.subtype)
+    for enclosing_type in reversed(enclosing_types):
+        candidate_types.extend(enclosing_type.subtype)
     new_fields = []
     for field in structure.field:
         new_fields.append(field)
         if not field.name.is_anonymous:
             continue
         field.attribute.extend([_skip_text_output_attribute()])
-        for subtype in type_definition.subtype:
+        for subtype in candidate_types:
             if (
                 subtype.name.name.text
                 == field.type.atomic_type.reference.source_name[-1].text
@@ -345,10 +352,14 @@ def _replace_next_keyword(structure, source_file_name, errors):
         last_physical_field_location = field.location
 
 
-def _add_virtuals_to_structure(structure, type_definition):
-    _add_anonymous_aliases(structure, type_definition)
+def _add_virtuals_to_structure(structure, type_definition, enclosing_types):
+    _add_anonymous_aliases(structure, type_definition, enclosing_types)
     _add_size_virtuals(structure, type_definition)
     _add_size_bound_virtuals(structure, type_definition)
+
+
+def _set_enclosing_types_for_subtypes(type_definition, enclosing_types):
+    return {"enclosing_types": enclosing_types + (type_definition,)}
 
 
 def desugar(ir):
@@ -372,6 +383,12 @@ def desugar(ir):
     if errors:
         return errors
     traverse_ir.fast_traverse_ir_top_down(
-        ir, [ir_data.Structure], _add_virtuals_to_structure
+        ir,
+        [ir_data.Structure],
+        _add_virtuals_to_structure,
+        incidental_actions={
+            ir_data.TypeDefinition: _set_enclosing_types_for_subtypes,
+        },
+        parameters={"enclosing_types": ()},
     )
     return []
